@@ -1,4 +1,43 @@
-(* placeholder until the agent model lands: keeps the build target alive *)
-From Coq Require Import NArith.
-Theorem C01_placeholder : (0 = 0)%N. Proof. reflexivity. Qed.
-Print Assumptions C01_placeholder.
+(* C01 - no PFCP datagram can crash or wedge the agent.  Statements only.
+   The model (Model/Agent.v) takes the datagram as go-pfcp decodes it; every place where the Go code
+   would index or dereference unguardedly is an explicit [Crash] outcome of the model, and every handler
+   is a total structurally recursive function (no fuel), so "does not block" is totality. *)
+From Coq Require Import NArith List Bool.
+From UPF Require Import Model.IPPool Model.Fteid Model.PortRange Model.Agent Proofs.AgentProofs.
+Import ListNotations.
+Open Scope N_scope.
+
+(* for every agent state, every connection state, every decoded datagram whatsoever (any combination of
+   absent / repeated / unreadable IEs in any order), every datapath connectivity and every stream of
+   random draws: the handler returns - it never reaches a Crash site *)
+Theorem C01_no_crash : forall burst a c connected m draws, exists r, handle burst a c connected m draws = Done r.
+Proof. exact handle_done. Qed.
+Print Assumptions C01_no_crash.
+
+(* the two loops with computed indices: MarkSessionQer never indexes outside its slices *)
+Theorem C01_mark_session_qer_in_bounds : forall pdrs qers, exists r, mark_session_qer pdrs qers = Done r.
+Proof. exact mark_session_qer_done. Qed.
+Print Assumptions C01_mark_session_qer_in_bounds.
+
+(* dropped or answered: at most one reply, of the type that answers the request; responses and
+   unsupported / undecodable datagrams are dropped *)
+Theorem C01_dropped_or_answered : forall burst a c connected m draws a' c' o,
+  handle burst a c connected m draws = Done (a', c', o) -> reply_matches m (o_reply o).
+Proof. exact handle_reply_matches. Qed.
+Print Assumptions C01_dropped_or_answered.
+
+(* a valid request afterwards is processed normally: whatever state the previous datagrams left, a
+   heartbeat is answered (no precondition on the state: the theorem above is unconditional too) *)
+Theorem C01_heartbeat_always_answered : forall burst a c connected draws,
+  handle burst a c connected MHeartbeat draws = Done (a, c, just RHeartbeat).
+Proof. reflexivity. Qed.
+Print Assumptions C01_heartbeat_always_answered.
+
+(* non-vacuity: an establishment without any PDR but with two QERs reaches MarkSessionQer with an empty
+   PDR list - the shape that used to index s.pdrs[-1] - and is answered *)
+Example C01_nonvacuous :
+  exists r, handle (fun _ _ _ => 0) (Agent (Cfg 1 2 true) None (Gen 0 []) 0 no_tables) (Conn 7 [] [] 0) true
+                   (MEst (Some (IOk 7)) (Some (IOk (9, None))) [] []
+                         [QerIE (IOk 1) 0 0 0 0 0 0 0; QerIE (IOk 2) 0 0 0 0 0 0 0]) [5] = Done r
+            /\ o_reply (snd r) = Some (REst 9 CAUSE_OK true (Some 5) []).
+Proof. eexists; split; vm_compute; reflexivity. Qed.
